@@ -13,25 +13,13 @@
 (*   env TRACE         the ndjson event log                                *)
 (*   env VERIF_LIKELY / VERIF_LAYOUT  CLDR data (see Cldr.tla)             *)
 (***************************************************************************)
-EXTENDS LocaleObject, Cldr, Ascii
+EXTENDS ObjectLikely
 
 Rec == ndJsonDeserialize(IOEnv.TRACE)
 
 VARIABLES pos, obj     \* (not "i": a variable named like a bound variable of the library
                        \*  modules stops TLC from caching their constant definitions)
 vars == <<pos, obj>>
-
-(* ----- bytes <-> text (for the likely-subtags atoms) ---------------------- *)
-StrOf(bs) == StrOfBytes(bs)
-OptStr(bs) == IF bs = <<>> THEN None ELSE StrOf(bs)
-OptB(str) == IF str = None THEN <<>> ELSE B(str)
-
-(* maximize / minimize on byte-level identifiers, for both allowed variants  *)
-LikelyOnBytes(F(_, _, _, _, _), fb, l, s, r) ==
-    LET x == F(T, StrOf(l), OptStr(s), OptStr(r), fb) IN
-    <<x[1], IF x[1] THEN <<B(x[2][1]), OptB(x[2][2]), OptB(x[2][3])>> ELSE <<l, s, r>> >>
-MaxB(fb, l, s, r) == LikelyOnBytes(MaximizeF, fb, l, s, r)
-MinB(fb, l, s, r) == LikelyOnBytes(MinimizeF, fb, l, s, r)
 
 (* ----- verdicts ------------------------------------------------------------ *)
 Good(o) == [good |-> TRUE, why |-> "", props |-> <<>>, obj |-> o]
@@ -96,12 +84,10 @@ JudgeSub(e, o) ==
     ELSE Good(o)
 
 (* one public mutator / getter call on the object                            *)
-LikelyOps == {"maximize", "minimize"}
 JudgeOp(e, o) ==
     IF ~OutputOK(e.out.k) THEN Bad("outcome-" \o e.out.k, <<"C01", "C10">>, e.st)
     ELSE IF e.o.op \in LikelyOps THEN
-        LET allowed == { ApplyLikely(o, LAMBDA l, s, r : IF e.o.op = "maximize" THEN MaxB(fb, l, s, r) ELSE MinB(fb, l, s, r))
-                           : fb \in BOOLEAN }
+        LET allowed == { ApplyOpL(o, e.o, fb) : fb \in BOOLEAN }
             hit == { x \in allowed : x.res = e.out /\ x.obj = e.st }
         IN IF hit = {} THEN Bad("op-" \o e.o.op, <<"C10", IF e.o.op = "maximize" THEN "C07" ELSE "C08">>, e.st)
            ELSE IF e.ser # SerLoc(e.st) THEN Bad("op-text", <<"C04", "C10">>, e.st)
